@@ -34,6 +34,54 @@ EXTRA = [
 ]
 
 
+def _sh_outcome(cp: int):
+    """(acc, sel, jp) for code point cp as first / later character of a member-name shorthand - runs in a worker process."""
+    jp = _sh_outcome.jp
+    ch = chr(cp)
+    oks, sel, isjp = [], True, True
+    for text, doc, want in ((f"$.{ch}", {ch: 1, "a": 2}, [1]), (f"$.{ch}b", {ch + "b": 1, "b": 2, ch: 3}, [1]), (f"$.a{ch}", {"a" + ch: 1, "a": 2}, [1]),
+                            (f"$..{ch}", [{ch: 1}], [1]), (f"$[?@.{ch} == 1]", [{ch: 1}, {"a": 1}], [{ch: 1}]), (f"$.a.{ch}1", {"a": {ch + "1": 1, ch: 2}}, [1])):
+        try:
+            q = jp.compile(text)
+            oks.append(True)
+            sel = sel and q.find(doc).values() == want
+        except jp.JSONPathError:
+            oks.append(False)
+        except Exception:  # noqa: BLE001
+            oks.append(False)
+            isjp = False
+    return ("all" if all(oks) else "none" if not any(oks) else "mixed", sel, isjp)
+
+
+def _sh_chunk(cps):
+    if not hasattr(_sh_outcome, "jp"):
+        _sh_outcome.jp = core.import_repo()
+    return [(cp, _sh_outcome(cp)) for cp in cps]
+
+
+def shorthand_ranges(tier: str):
+    """Every code point from U+0080 (thorough) / a dense-then-strided sample (quick) in member-name shorthand position,
+    compressed to ranges of uniform outcome; TLC checks each range with a quantifier (Trace!VShRange)."""
+    import multiprocessing as mp  # noqa: PLC0415
+    if tier == "quick":
+        cps = list(range(0x80, 0x3100)) + list(range(0x3100, 0xD800, 89)) + list(range(0xD7F0, 0xD800)) + list(range(0xE000, 0xE010)) \
+            + list(range(0xE010, 0x110000, 997)) + list(range(0xFFF0, 0x10010)) + list(range(0x10FFF0, 0x110000))
+        cps = sorted(set(cps))
+    else:
+        cps = [c for c in range(0x80, 0x110000) if not 0xD800 <= c <= 0xDFFF]
+    chunks = [cps[i:i + 3000] for i in range(0, len(cps), 3000)]
+    with mp.Pool(core.NCPU) as pool:
+        outcomes = [x for ch in pool.map(_sh_chunk, chunks) for x in ch]
+    ranges = []
+    for cp, oc in outcomes:
+        if ranges and ranges[-1]["oc"] == oc and not (ranges[-1]["hi"] < 0xD800 <= cp):
+            ranges[-1]["hi"] = cp
+        else:
+            ranges.append({"lo": cp, "hi": cp, "oc": oc})
+    return len(cps), [{"op": "shrange", "q": [], "lo": r["lo"], "hi": r["hi"], "acc": r["oc"][0], "sel": r["oc"][1], "jp": r["oc"][2],
+                       "out": r["oc"][0], "cls": ""} for r in ranges]
+
+
 def run(chk: core.Check, tier: str, seed: int) -> None:
     jp = core.import_repo()
     rng = random.Random(seed)
@@ -94,9 +142,21 @@ def run(chk: core.Check, tier: str, seed: int) -> None:
     del keep
     for r in recs:
         chk.nontrivial.add(tuple(r["q"]))
+    # "any non-ASCII member-name shorthand": every code point, range-compressed
+    n_cps, shrecs = shorthand_ranges(tier)
+    chk.notes["shorthand_code_points_observed"] = n_cps
+    chk.notes["shorthand_ranges"] = len(shrecs)
+    chk.sample({"shorthand_ranges": [{k: v for k, v in r.items() if k in ("lo", "hi", "acc", "sel")} for r in shrecs[:4]]})
+    recs += shrecs
+    chk.evaluations += 6 * n_cps
     chk.sample({"query": core.dec_text(recs[60]["q"]), "compile": recs[60]["out"]})
     chk.sample({"query": core.dec_text(recs[-1]["q"]), "compile": recs[-1]["out"]})
-    common.judge(chk, recs, "c03", what="Trace: compile() outcomes vs Syntax/Typing (must-accept side)",
+    def sig(rej, rec):
+        if rec.get("op") == "shrange":
+            return {"clause": rej["clause"], "where": "member-name shorthand code point", "acc": rec["acc"]}
+        return common.default_sig(rej, rec)
+
+    common.judge(chk, recs, "c03", what="Trace: compile() outcomes vs Syntax/Typing (must-accept side)", sig=sig,
                  only=lambda c: c.startswith("C03"))
     chk.rule = (
         f"{len(cands)} distinct candidate texts (seeds, repository test queries, {n} seeded QueryGen texts over plain and "
@@ -106,4 +166,18 @@ def run(chk: core.Check, tier: str, seed: int) -> None:
                        "singular query in a comparison, number literals outside the exactly representable range"]
 
 
-replay = common.replay_generic
+def replay(path: str) -> int:
+    import json as _json  # noqa: PLC0415
+    with open(path) as fh:
+        case = _json.load(fh)["case"]
+    if case.get("query") == "" and "lo" in case:
+        # a member-name shorthand range: observe its code points again (at most 2,000 of them)
+        cps = [c for c in range(case["lo"], min(case["hi"], case["lo"] + 1999) + 1) if not 0xD800 <= c <= 0xDFFF]
+        recs = [{"op": "shrange", "q": [], "lo": cp, "hi": cp, "acc": oc[0], "sel": oc[1], "jp": oc[2]} for cp, oc in _sh_chunk(cps)]
+        rej, _ = core.validate_records("Trace", recs, name="replay")
+        for r in rej[:10]:
+            print(f"U+{recs[r['id']]['lo']:04X}: observed {recs[r['id']]['acc']}; spec verdict: REJECTED {r['clause']}")
+        if not rej:
+            print("spec verdict: accepted (does not reproduce)")
+        return 1 if rej else 0
+    return common.replay_generic(path)
